@@ -363,7 +363,9 @@ void Hist::connect(int c, int server, const Op &op, const std::function<void()> 
     if (ok) {
         Issued I; I.server = server; I.time_s = now_s(); I.version = nver; I.suite = nsuite; I.ems = ems; I.ms = ms_s;
         I.ticket_key = key_order[server].empty() ? -1 : key_order[server].front();   // the first loaded key mints
-        if (!after.id.empty() && nver != v_tls_1_3) {
+        // (a full handshake whose ServerHello merely echoes the id the client presented - the server does that when it skips the cache because a
+        //  ticket will be issued - creates no cache entry under that id: the model keeps whatever it knew about it)
+        if (!after.id.empty() && nver != v_tls_1_3 && (resumed_s || after.id != before.id)) {
             Issued J = I; J.mech = "id"; J.invalidated = srv_alert;
             auto it = issued.find("id:" + after.id);
             if (it != issued.end() && it->second.invalidated) { J.invalidated = true; }   // once invalidated, stays so in the model
